@@ -4,6 +4,7 @@
 //   for ever without consuming a token. Count events since the last consumed token and
 //   panic (attributably) instead of allocating without bound.
 // * raw event list of the last parse, before `event::process`, for conformance checks.
+// * op recorder: the sequence of `Parser` / `Marker` / `CompletedMarker` calls the grammar makes.
 
 use std::cell::{Cell, RefCell};
 
@@ -22,10 +23,34 @@ thread_local! {
     static KEEP_EVENTS: Cell<bool> = const { Cell::new(false) };
     static LAST_EVENTS: RefCell<Vec<RawEvent>> = const { RefCell::new(Vec::new()) };
     static LAST_EVENT_COUNT: Cell<usize> = const { Cell::new(0) };
+    static KEEP_OPS: Cell<bool> = const { Cell::new(false) };
+    static OPS: RefCell<Vec<RawOp>> = const { RefCell::new(Vec::new()) };
+}
+
+/// `(tag, a, b)`: ("start", marker, 0), ("complete", marker, kind), ("abandon", marker, 0),
+/// ("precede", completed, new marker) - after the "start" of the new marker -,
+/// ("extend_to", completed, marker), ("bump", n_raw_tokens, kind), ("error", 0, 0).
+pub type RawOp = (&'static str, u32, u32);
+
+pub(crate) fn on_op(tag: &'static str, a: u32, b: u32) {
+    if KEEP_OPS.with(|k| k.get()) {
+        OPS.with(|o| o.borrow_mut().push((tag, a, b)));
+    }
+}
+
+/// Record (or not) the API calls of subsequent parses on this thread.
+pub fn keep_ops(on: bool) {
+    KEEP_OPS.with(|k| k.set(on));
+}
+
+/// API calls recorded since the last `Parser::new` on this thread.
+pub fn take_ops() -> Vec<RawOp> {
+    OPS.with(|o| std::mem::take(&mut *o.borrow_mut()))
 }
 
 pub(crate) fn on_new_parser() {
     SINCE_BUMP.with(|c| c.set(0));
+    OPS.with(|o| o.borrow_mut().clear());
 }
 
 pub(crate) fn on_bump() {
